@@ -44,6 +44,8 @@ def local_env(stmt: ast.stmt, stop: ast.AST = None) -> Dict[str, ast.AST]:
                         counts[n.id] = counts.get(n.id, 0) + 1
                 if isinstance(s, ast.Assign) and len(s.targets) == 1 and isinstance(s.targets[0], ast.Name):
                     defs[s.targets[0].id] = s.value
+                elif isinstance(s, ast.AnnAssign) and isinstance(s.target, ast.Name) and s.value is not None:        # `name: T = value`
+                    defs[s.target.id] = s.value
             for k, v in defs.items():
                 if counts.get(k, 0) == 1 and k not in env:
                     env[k] = v
